@@ -12,7 +12,7 @@ META = {
     "C02": {
         "engine": _E1, "design_ref": "DESIGN.md §4 C02",
         "technique": "stateful property-based testing with a generated schedule; liveness decided as a state predicate at synctest quiescence (blocked-while-grantable), writer-preference barrier, post-cancel probes",
-        "text": "Same machine as C01 biased to waiters and cancellations. At every full-quiescence point a blocked Lock must be non-grantable under the lock's own rules, a cancelled Lock must have returned, TryLock probes must equal the model without cancelled calls, and a reader issued behind a waiting writer must not be granted before the writer acquired or gave up.",
+        "text": "Same machine as C01 biased to waiters and cancellations. At every full-quiescence point a blocked Lock must be non-grantable under the lock's own rules, a cancelled Lock must have returned, TryLock probes must equal the model without cancelled calls, and a reader issued behind a waiting writer must not be granted before the writer acquired or gave up. A free-running unit (TestC02Free) keeps the RWMutex's internal mutex contended while a single writer's Lock calls are cancelled, and requires a read TryLock issued right after such a call returned to succeed.",
         "note": "Quiescence is exact inside the synctest bubble (all goroutines durably blocked), so no wall-clock grace period is used. Bounded histories.",
     },
     "C19": {
@@ -30,19 +30,19 @@ META = {
     "C03": {
         "engine": _E1, "design_ref": "DESIGN.md §4 C03",
         "technique": "stateful PBT with generated schedule; channel-generation model + two-sided waiter oracle at synctest quiescence",
-        "text": "Generated waiters/updaters/peekers on one Broadcast with a generated interleaving of critical sections, including broadcasts that land between a waiter's predicate check and its blocking receive. Every wait channel handed out carries the number of broadcasts before it and must be closed iff a later broadcast happened; Wait's return value is checked against the wrapped predicate; a blocked Wait at quiescence must have a false predicate and a live context. Waiters also use expired / expiring deadline contexts (virtual time), predicates that report done together with an error, and updates that broadcast twice inside one section. TestC03Free adds real contention incl. the asynchronous slow path of HoldLockMaybeAsync.",
+        "text": "Generated waiters/updaters/peekers on one Broadcast with a generated interleaving of critical sections, including broadcasts that land between a waiter's predicate check and its blocking receive. Every wait channel handed out carries the number of broadcasts before it and must be closed iff a later broadcast happened; Wait's return value is checked against the wrapped predicate; a blocked Wait at quiescence must have a false predicate and a live context. Waiters also use expired / expiring deadline contexts (virtual time), predicates that report done together with an error, and updates that broadcast twice inside one section. TestC03Free adds real contention incl. the asynchronous slow path of HoldLockMaybeAsync. Predicate errors include context.Canceled / DeadlineExceeded and errors wrapping them; whenever the predicate's last evaluation failed, exactly that error must be Wait's result, also if the context was cancelled meanwhile.",
         "note": "Broadcasters broadcast whenever they change the guarded state (documented usage). TryHoldLock/HoldLockMaybeAsync contention paths are only exercised by the free-running race programs (C13).",
     },
     "C15": {
         "engine": _E1, "design_ref": "DESIGN.md §4 C15",
         "technique": "model-based stateful PBT with generated schedule; sequential cell model advanced in critical-section grant order; waiter results checked against the value sampled in their last critical section; blocked-while-satisfied at quiescence",
-        "text": "Writers (SetValue, SwapValue inc/const/nil), readers and all four waiter kinds with contexts and error channels over plain and custom equality; the model is advanced in the exact order the controller grants the critical sections, so every GetValue/SwapValue result and every waiter return is compared with the linearised cell history. TestC15Free checks lost updates / interleaved callbacks with real parallelism.",
+        "text": "Writers (SetValue, SwapValue inc/const/nil), readers and all four waiter kinds with contexts and error channels over plain and custom equality; the model is advanced in the exact order the controller grants the critical sections, so every GetValue/SwapValue result and every waiter return is compared with the linearised cell history. TestC15Free checks lost updates / interleaved callbacks with real parallelism. TestC15Free additionally stamps SetValue writes (writer, sequence) on a second cell whose lock is kept busy: a goroutine never reads one of its own older stamps after its SetValue returned and one writer's stamps never go backwards for one reader.",
         "note": "One critical section per mutator call (true for the anchored code). Values 0..8, equality mod 4.",
     },
     "C11": {
         "engine": _E1, "design_ref": "DESIGN.md §4 C11",
         "technique": "stateful PBT with generated schedule over Promise and PromiseContainer; unique result values make every returned result attributable; spin detection by a grant budget; blocked-despite-result at synctest quiescence",
-        "text": "Setters (incl. context sentinel errors as results), three awaiter kinds with contexts and channels, container replacement ops. Exactly one SetResult may return true, every value returned must be the winner's, a container awaiter may only return the result of a promise that was current after the awaiter's last quiescent block, blocked awaiters at quiescence must have no result, live context and silent channel. TestC11Free races setters and awaiters on several promises with real parallelism (exactly one winner, everybody sees it). An awaiter that keeps taking critical sections without blocking (grant budget exceeded) is reported as a spin.",
+        "text": "Setters (incl. context sentinel errors as results), three awaiter kinds with contexts and channels, container replacement ops. Exactly one SetResult may return true, every value returned must be the winner's, a container awaiter may only return the result of a promise that was current after the awaiter's last quiescent block, blocked awaiters at quiescence must have no result, live context and silent channel. TestC11Free races setters and awaiters on several promises with real parallelism (exactly one winner, everybody sees it). An awaiter that keeps taking critical sections without blocking (grant budget exceeded) is reported as a spin. TestC11Free also drives a PromiseContainer with stamped promises: after its own SetPromise returned a goroutine never obtains one of its own older stamps, and one writer's stamps never go backwards for one reader.",
         "note": "Open findings D16a/D16b (container AwaitWithErrCh/AwaitWithCancelCh ignore their channel while an unresolved promise is current) are excluded by construction and reported as KNOWN-FINDING; nil errors on error channels are not generated.",
     },
     "C16": {
@@ -54,43 +54,43 @@ META = {
     "C17": {
         "engine": _E1, "design_ref": "DESIGN.md §4 C17",
         "technique": "PBT over argument lists and scripted outcomes with a generated schedule that can delay the caller right after each of its critical sections",
-        "text": "0..8 functions incl. nil entries with scripted outcomes and a generated caller-cancel point; the functions park at entry so completion order is generated. Result checked against the multiset of outcomes observed at return, per-function invocation counts, context cancelled after return, no panic for any argument list.",
+        "text": "0..8 functions incl. nil entries with scripted outcomes and a generated caller-cancel point; the functions park at entry so completion order is generated. Result checked against the multiset of outcomes observed at return, per-function invocation counts, context cancelled after return, no panic for any argument list. One third of the caller cancellations happen through a context whose Err() is DeadlineExceeded (the result must still be context.Canceled).",
         "note": "Functions that block do so on their context only.",
     },
     "C18": {
         "engine": _E1, "design_ref": "DESIGN.md §4 C18",
         "technique": "model-based stateful PBT with generated schedule; (queued,running) model advanced in critical-section order, ground-truth counters inside the jobs, probes at quiescence",
-        "text": "Jobs block until the generator finishes them. Checked at every job start: active <= limit and single execution; at quiescence: Enqueue() equals both the model and the harness ground truth, no job waits while a slot is free, observers are not blocked while idle; WaitIdle nil implies all earlier jobs finished; limit 1 start order equals enqueue (critical-section) order; every reported pair satisfies queued>0 => running==limit. Observers get nil / non-nil errors on their error channel; TestC18Free checks limit, exactly-once and WaitIdle with real parallelism.",
+        "text": "Jobs block until the generator finishes them. Checked at every job start: active <= limit and single execution; at quiescence: Enqueue() equals both the model and the harness ground truth, no job waits while a slot is free, observers are not blocked while idle; WaitIdle nil implies all earlier jobs finished; limit 1 start order equals enqueue (critical-section) order; every reported pair satisfies queued>0 => running==limit. Observers get nil / non-nil errors on their error channel; TestC18Free checks limit, exactly-once and WaitIdle with real parallelism. Batches may contain nil funcs (tolerated by the queue; modelled with a FIFO backlog); TestC18Free runs pollers calling the zero-argument Enqueue() throughout, half of the cases beside a goroutine forcing preemption, and checks every returned pair.",
         "note": "Bounded: <= 60 ops, batches <= 4.",
     },
     "C04": {
         "engine": "E2/E1 controlled scheduler with scripted instances (exit latency is generated)", "design_ref": "DESIGN.md §4 C04",
         "technique": "stateful PBT with generated schedule and scripted user functions; overlap counter at function entry; returned wait channels checked against instance returns",
-        "text": "Generated SetContext/SetRoutine/SetState/SetStateRoutine/RestartRoutine histories in which instances keep 'returning' until a generated Finish, with routine.exec and Broadcast tickets left parked across calls. The oracles do not depend on the reference machine: at every entry of the managed function no other instance may be executing; a channel returned by SetRoutine/SetState may only be closed once every instance of an earlier generation has returned, and no such instance may enter afterwards.",
+        "text": "Generated SetContext/SetRoutine/SetState/SetStateRoutine/RestartRoutine histories in which instances keep 'returning' until a generated Finish, with routine.exec and Broadcast tickets left parked across calls. The oracles do not depend on the reference machine: at every entry of the managed function no other instance may be executing; a channel returned by SetRoutine/SetState may only be closed once every instance of an earlier generation has returned, and no such instance may enter afterwards. Histories also contain the owner cancelling the container's root context directly (cancelroot).",
         "note": "Instance goroutines are bound to the reference machine's spawn tokens by creation order at the routine.exec hook.",
     },
     "C05": {
         "engine": _E1, "design_ref": "DESIGN.md §4 C05",
         "technique": "model-based stateful PBT with concurrent mutators; reference machine (Appendix A.2) advanced in critical-section grant order; cancellation checked when each mutator returns; survivor checked at quiescence",
-        "text": "Concurrent mutator goroutines; the oracles use only the instances that were executing when a call's critical section was granted and the last granted context/state (no dependence on restart rules). TestC05Free repeats the superseded-implies-cancelled-on-return check with real lock contention; when a mutator returns, every instance it superseded (context replaced or cleared, routine/state replaced, restart) must have a cancelled context; at full quiescence at most one instance has a live context, only if a context, a routine and a non-empty state are set, and it carries the container's current context id and the most recently stored (unique) state.",
+        "text": "Concurrent mutator goroutines; the oracles use only the instances that were executing when a call's critical section was granted and the last granted context/state (no dependence on restart rules). TestC05Free repeats the superseded-implies-cancelled-on-return check with real lock contention; when a mutator returns, every instance it superseded (context replaced or cleared, routine/state replaced, restart) must have a cancelled context; at full quiescence at most one instance has a live context, only if a context, a routine and a non-empty state are set, and it carries the container's current context id and the most recently stored (unique) state. Histories also contain the owner cancelling the root context directly and WaitExited calls (some with an already cancelled waiter context) between the mutators.",
         "note": "The container's root context is never cancelled from outside (only replaced), see DESIGN Appendix A.2.",
     },
     "C14": {
         "engine": "E2 sequential histories in virtual time", "design_ref": "DESIGN.md §4 C14",
         "technique": "model-based PBT against the documented state machine in virtual time: scripted outcomes, scripted back-off, exact run/return-value/back-off-log/exit-callback/WaitExited comparison after every settled step",
-        "text": "Runs, exits and waits are compared with the machine (mutator return values are only counted); the managed function is entered exactly by the instances the machine starts (success never re-run except by RestartRoutine/new routine; failure re-run by RestartRoutine, SetContext(restart) or the back-off timer at exactly t+b); NextBackOff/Reset call counts equal the machine's; current exits are reported exactly once to each exit callback; WaitExited returns exactly what was returnable at its last look and is never blocked at quiescence while returnable. TestC14Backoff drives the library's own back-off configuration (routine.WithRetry, exponential/constant, defaults) in virtual time with instances that run up to 40 minutes before failing.",
+        "text": "Runs, exits and waits are compared with the machine (mutator return values are only counted); the managed function is entered exactly by the instances the machine starts (success never re-run except by RestartRoutine/new routine; failure re-run by RestartRoutine, SetContext(restart) or the back-off timer at exactly t+b); NextBackOff/Reset call counts equal the machine's; current exits are reported exactly once to each exit callback; WaitExited returns exactly what was returnable at its last look and is never blocked at quiescence while returnable. TestC14Backoff drives the library's own back-off configuration (routine.WithRetry, exponential/constant, defaults) in virtual time with instances that run up to 40 minutes before failing. One third of the cases leave timer callbacks and exits parked across calls; the callback of a retry timer that was stopped after it had fired must have no effect. TestC14Backoff checks the exact configured schedule (initial*multiplier^k capped at max) and optionally runs a second, failing container built from the same Option value.",
         "note": "A pending retry dropped by SetContext(other,false)/ClearContext follows the code (not asserted either way); exits of instances superseded by SetRoutine may be reported to callbacks (0 or 1 times).",
     },
     "C06": {
         "engine": "E2 sequential histories in virtual time", "design_ref": "DESIGN.md §4 C06",
         "technique": "model-based stateful PBT in virtual time: key-set reference model with exact removal deadlines; every return value and a full read-back compared after every step",
-        "text": "Keyed and KeyedRefCount machines over 1..6 keys with and without release delay; AdvanceTime offsets straddle the delay (99/100/101 ms). After every operation and time advance GetKeys, GetKey for the whole universe and GetKeysWithData equal the model, as do existed/added/removed/data return values and the number of constructor calls.",
+        "text": "Keyed and KeyedRefCount machines over 1..6 keys with and without release delay; AdvanceTime offsets straddle the delay (99/100/101 ms). After every operation and time advance GetKeys, GetKey for the whole universe and GetKeysWithData equal the model, as do existed/added/removed/data return values and the number of constructor calls. The callback of a removal timer that was stopped after it had fired (key requested again) must have no effect.",
         "note": "ResetRoutine is not generated here (it re-creates the record and drops a pending removal; property silent). Routines finish promptly (scripted kinds).",
     },
     "C07": {
         "engine": "E2/E1 controlled scheduler with scripted routines", "design_ref": "DESIGN.md §4 C07",
         "technique": "model-based stateful PBT with generated schedule: per-key reference machine advanced in mutex-section grant order, instance goroutines bound to machine tokens at the keyed.exec hook, timer callbacks identified by hook",
-        "text": "Per key and incarnation no two instances execute at once; when a call returns every instance the machine says it removed/superseded/left without context has a cancelled context; instances enter the routine exactly when the machine starts them (start, restart, reset, back-off retry at exactly t+b), a retry that is due but never happens is reported, nothing runs for a removed key, back-off NextBackOff/Reset counts match.",
+        "text": "Per key and incarnation no two instances execute at once; when a call returns every instance the machine says it removed/superseded/left without context has a cancelled context; instances enter the routine exactly when the machine starts them (start, restart, reset, back-off retry at exactly t+b), a retry that is due but never happens is reported, nothing runs for a removed key, back-off NextBackOff/Reset counts match. The callback of a retry timer that was stopped after it had fired (routine restarted) must have no effect.",
         "note": "Overlap between a removed key's old routine and the routine of a re-added key is not asserted (new incarnation). Pending delayed removal across ResetRoutine follows the code.",
     },
     "C08": {
@@ -102,7 +102,7 @@ META = {
     "C09": {
         "engine": _E1, "design_ref": "DESIGN.md §4 C09",
         "technique": "model-based stateful PBT with generated schedule; exact per-reference callback sequences, container contents and resolver-call overlap checked against the reference machine",
-        "text": "Resolver calls are bound to the machine's call tokens at the refcount.resolve hook; the resolver may never be entered while another call is executing nor by a goroutine the machine did not start; at quiescence target/targetErr equal the machine, every recording reference received exactly the machine's callback sequence (including references added after resolution), a wanted resolution is under way, superseded calls see a cancelled context. Panics of API calls are violations; a mutex left locked is reported through the hang watchdog and confirmed in a fresh process.",
+        "text": "Resolver calls are bound to the machine's call tokens at the refcount.resolve hook; the resolver may never be entered while another call is executing nor by a goroutine the machine did not start; at quiescence target/targetErr equal the machine, every recording reference received exactly the machine's callback sequence (including references added after resolution), a wanted resolution is under way, superseded calls see a cancelled context. Panics of API calls are violations; a mutex left locked is reported through the hang watchdog and confirmed in a fresh process. A free-running unit (TestC09Free) replaces the context continuously while other goroutines add and release references: the resolver must never overlap, no callback may be told about a value whose release function has already run, and every unreleased reference's last callback must be the final value.",
         "note": "Bounded histories (<= 60 ops).",
     },
     "C10": {
